@@ -226,6 +226,16 @@ def lattice(ctx, far):
 def by_cell(ctx):
     rng = ctx.rng
     spec = _spec(ctx, far=(ctx.i % 16 == 2))
+    if spec.nd >= 2 and rng.random() < 0.2 and not spec.int_corners and not spec.dyadic:
+        # axes of very different scale (a nm-sized axis next to a GHz-sized one): what is
+        # commensurate is decided axis by axis
+        ax = int(rng.integers(0, spec.nd))
+        fac = 10.0 ** rng.uniform(6, 15)
+        cell, pmin = spec.cell.copy(), spec.pmin.copy()
+        cell[ax] *= fac
+        pmin[ax] *= fac
+        spec = gen.MeshSpec(pmin, cell, spec.n, spec.dims, spec.units, spec.flip)
+        ctx.event("bycell.strongly_anisotropic")
     nd, n = spec.nd, spec.n
     region = spec.region()
     edges = np.asarray(region.edges, dtype=float)
